@@ -24,6 +24,7 @@ type hop struct {
 	P   int    `json:"p,omitempty"`   // pid number (login/open)
 	T   string `json:"t,omitempty"`   // ev: record type; noise: nosession|unset|unknown_ses
 	Cut int    `json:"cut,omitempty"` // clean: -1 far past; n>=0: instant just before op n (len = after all so far); 1<<20 far future
+	Old int    `json:"old,omitempty"` // open: the LOGIN record's old-ses names session Old (0 = unset); the correlator must not care
 }
 
 type history struct {
@@ -46,6 +47,9 @@ func (o hop) String() string {
 		}
 		return fmt.Sprintf("L(p%d)", o.P)
 	case "open":
+		if o.Old != 0 {
+			return fmt.Sprintf("O(s%d,p%d,old=s%d)", o.S, o.P, o.Old)
+		}
 		return fmt.Sprintf("O(s%d,p%d)", o.S, o.P)
 	case "ev":
 		if o.P != 0 && o.P != o.S {
